@@ -58,7 +58,7 @@ func famCbMw(t *testing.T, r *hx.Rng, o *hx.Out) {
 	stackB, _ := chainB.App.GetIBCKeeper().PortKeeper.Route(transfertypes.ModuleName)
 	types := []string{"send_packet", "acknowledgement_packet", "timeout_packet", "receive_packet"}
 	kinds := []string{"nil", "err", "panic"}
-	n := hx.N(420, 12000)
+	n := hx.N(420, 4000)
 	for i := 0; i < n; i++ {
 		typ := types[r.Intn(len(types))]
 		kind := kinds[r.Intn(3)]
